@@ -281,10 +281,22 @@ def gen_case(r, version):
         names = st_.model.names()
         if x < 0.12:
             ops.append(["unused_name"])
+        elif x < 0.2 and version == "gfa1" and not st_.model.missing_links() and len(st_.model.segment_names()) >= 1 and gen.chance(r, 0.5):
+            # (make that situation: a path over a link nobody declared, to a segment nobody defined)
+            a = gen.choice(r, st_.model.segment_names())
+            free = [n for n in H.FRESH[16:20] if n not in names and n not in st_.model.undefined_mentions()]
+            if "," in a or not free or "zp7" in names:
+                continue
+            line = ["P", ["zp7", "%s+,%s-" % (a, free[0]), "*"], []]
+            H.model_add(st_, line)
+            ops.append(["add", line, False])
         elif x < 0.2 and version == "gfa1" and st_.model.missing_links() and names:
-            # the link a path is waiting for, carrying an ID which is already in use
+            # the link a path is waiting for, carrying an ID which is already in use: by a line, or by a segment
+            # that is not defined yet and that other lines mention
             _p, (f, fo, t, to, ov) = st_.model.missing_links()[0]
-            ops.append(["collide_add", "L\t%s\t%s\t%s\t%s\t%s\tID:Z:%s" % (f, fo, t, to, ov, gen.choice(r, sorted(names))), "cross_type_on_placeholder"])
+            pending = sorted(st_.model.undefined_mentions())
+            taken = gen.choice(r, pending) if pending and gen.chance(r, 0.5) else gen.choice(r, sorted(names))
+            ops.append(["collide_add", "L\t%s\t%s\t%s\t%s\t%s\tID:Z:%s" % (f, fo, t, to, ov, taken), "cross_type_on_placeholder"])
         elif x < 0.23 and st_.model.segment_names():
             # a line that uses its own identifier for one of the lines it mentions (an edge naming itself as
             # segment, a link whose ID is the name of the segment it leaves, a path visiting "itself")
